@@ -40,3 +40,14 @@ Example c19_example :
   map fst (run M P 8 winit (fails ++ [(AEzspError, AOk); (AOk, AOk); (ATimeout, AOk)]))
   = repeat false (N.to_nat M) ++ [true; false; false].
 Proof. vm_compute. reflexivity. Qed.
+
+(* ---- the tie to the source text --------------------------------------------------------------------
+   gen/GenWatchdogFn.v is emitted on every run from the Python AST of ControllerApplication._watchdog_feed
+   (awaits in sequence inside try / except (TimeoutError, EzspError) / else: the outcome of each awaited
+   keep-alive command is a parameter; the counter bookkeeping carries no control flow and is skipped).
+   The feed every theorem above speaks of is that function. *)
+Require Import BV.gen.GenWatchdogFn BV.proofs.WatchdogSrc_proofs.
+Theorem c19_source_feed : forall M P v st a1 a2,
+  let '(f, n, r, c) := py_watchdog_feed M P v (failures st) (feeds st) a1 a2 in
+  feed M P v st (a1, a2) = ({| failures := f; feeds := n |}, r, c).
+Proof. exact src_watchdog_feed. Qed.
